@@ -55,9 +55,9 @@ theorem describeStart_dying {P : St → Prop} (s : St) (rd : Nat) (fs k : List F
       exact startDo_dying _ _ _ _ _ _ _ _ (connOpen_dying h1 hd) (fun s' e h => hR _ _ h) (fun hf => by cases hf)
   · exact hR _ _ hd
 
-theorem setupStart_dying {P : St → Prop} (c : Cfg) (s : St) (a : SetupArgs) (k : List Fr)
+theorem setupStart_dying {P : St → Prop} (c : Cfg) (s : St) (a : SetupArgs) (fs k : List Fr)
     (retK : St → Val → St) (hd : Dying s) (hR : ∀ s' v, Dying s' → P (retK s' v)) :
-    P (setupStart c s a k retK) := by
+    P (setupStart c s a fs k retK) := by
   unfold setupStart
   split
   · split
@@ -80,8 +80,27 @@ theorem clearSession_dying (s : St) (hd : Dying s) : Dying (clearSession s) := b
   have h := closeConn_dying s hd
   simpa [Dying, clearSession] using h
 
+theorem swEnd_dying {P : St → Prop} (retK : St → Val → St)
+    (hR : ∀ s' v, Dying s' → P (retK s' v)) (hX : ∀ s' e, P (runExit s' (some e))) :
+    ∀ s' v, Dying s' → P (swEnd retK s' v) := by
+  intro s' v hd
+  unfold swEnd
+  cases v <;> simp only []
+  all_goals first
+    | exact hX _ _
+    | exact hR _ _ hd
+
+theorem playStart_dying {P : St → Prop} (s : St) (fs k : List Fr) (retK : St → Val → St)
+    (hd : Dying s) (hR : ∀ s' v, Dying s' → P (retK s' v)) : P (playStart s fs k retK) := by
+  unfold playStart
+  split
+  · exact startDo_dying _ _ _ _ _ _ _ _ (by simpa [Dying] using hd)
+      (fun s' e h => hR _ _ (by simpa [Dying, playUndo] using h)) (fun hf => by cases hf)
+  · exact hR _ _ hd
+
 theorem afterReset_dying {P : St → Prop} (s : St) (n : AfterReset) (k : List Fr)
-    (retK : St → Val → St) (hd : Dying s) (hR : ∀ s' v, Dying s' → P (retK s' v)) :
+    (retK : St → Val → St) (hd : Dying s) (hR : ∀ s' v, Dying s' → P (retK s' v))
+    (hX : ∀ s' e, P (runExit s' (some e))) :
     P (afterReset s n k retK) := by
   have hc := clearSession_dying s hd
   unfold afterReset
@@ -93,39 +112,44 @@ theorem afterReset_dying {P : St → Prop} (s : St) (n : AfterReset) (k : List F
       | exact describeStart_dying _ _ _ _ _ (by simpa [Dying] using hc) hR
   | switchTcp a =>
     exact describeStart_dying _ _ _ _ _ (by simpa [Dying] using hc) hR
+  | switchAll ms =>
+    exact describeStart_dying _ _ _ _ _ (by simpa [Dying] using hc) (swEnd_dying retK hR hX)
 
 theorem resetStart_dying {P : St → Prop} (c : Cfg) (s : St) (n : AfterReset) (k : List Fr)
-    (retK : St → Val → St) (hd : Dying s) (hR : ∀ s' v, Dying s' → P (retK s' v)) :
+    (retK : St → Val → St) (hd : Dying s) (hR : ∀ s' v, Dying s' → P (retK s' v))
+    (hX : ∀ s' e, P (runExit s' (some e))) :
     P (resetStart c s n k retK) := by
   unfold resetStart
   split
-  · exact startDo_dying _ _ _ _ _ _ _ _ hd (fun s' _ h => afterReset_dying _ _ _ _ (by simpa [Dying] using h) hR)
-      (fun _ s' h => afterReset_dying _ _ _ _ (by simpa [Dying] using h) hR)
-  · exact afterReset_dying _ _ _ _ hd hR
+  · exact startDo_dying _ _ _ _ _ _ _ _ hd (fun s' _ h => afterReset_dying _ _ _ _ (by simpa [Dying] using h) hR hX)
+      (fun _ s' h => afterReset_dying _ _ _ _ (by simpa [Dying] using h) hR hX)
+  · exact afterReset_dying _ _ _ _ hd hR hX
 
 theorem commitSetup_dying (s : St) (a : SetupArgs) (p : Proto) (ch : Nat) (hd : Dying s) :
     Dying (commitSetup s a p ch) := by
   simpa [Dying, commitSetup] using hd
 
 theorem setupResp_dying {P : St → Prop} (c : Cfg) (s : St) (a : SetupArgs) (p : Proto) (r : Resp)
-    (k : List Fr) (retK : St → Val → St) (hd : Dying s) (hR : ∀ s' v, Dying s' → P (retK s' v)) :
+    (k : List Fr) (retK : St → Val → St) (hd : Dying s) (hR : ∀ s' v, Dying s' → P (retK s' v))
+    (hX : ∀ s' e, P (runExit s' (some e))) :
     P (setupResp c s a p r k retK) := by
   unfold setupResp
   split
   · exact hR _ _ (commitSetup_dying _ _ _ _ hd)
   · exact hR _ _ hd
-  · exact setupStart_dying _ _ _ _ _ (by simpa [Dying] using hd) hR
-  · exact resetStart_dying _ _ _ _ _ (by simpa [Dying] using hd) hR
+  · exact setupStart_dying _ _ _ _ _ _ (by simpa [Dying] using hd) hR
+  · exact resetStart_dying _ _ _ _ _ (by simpa [Dying] using hd) hR hX
 
 theorem describeResp_dying {P : St → Prop} (c : Cfg) (s : St) (rd : Nat) (r : Resp) (k : List Fr)
-    (retK : St → Val → St) (hd : Dying s) (hR : ∀ s' v, Dying s' → P (retK s' v)) :
+    (retK : St → Val → St) (hd : Dying s) (hR : ∀ s' v, Dying s' → P (retK s' v))
+    (hX : ∀ s' e, P (runExit s' (some e))) :
     P (describeResp c s rd r k retK) := by
   unfold describeResp
   repeat' split
   all_goals first
     | exact hR _ _ hd
     | exact hR _ _ (by simpa [Dying] using hd)
-    | exact resetStart_dying _ _ _ _ _ hd hR
+    | exact resetStart_dying _ _ _ _ _ hd hR hX
 
 theorem captureSession_dying (s : St) (k : SessK) (hd : Dying s) : Dying (captureSession s k) := by
   cases k <;> simpa [Dying, captureSession] using hd
@@ -146,7 +170,8 @@ theorem doTail_dying {P : St → Prop} (c : Cfg) (s : St) (m : Meth) (tp : Nat) 
 
 theorem frameRet_dying {P : St → Prop} (c : Cfg) (f : Fr) (k : List Fr) (retK : St → Val → St)
     (s : St) (v : Val) (hd : Dying s)
-    (hR : ∀ s' v, Dying s' → P (retK s' v)) : P (frameRet c f k retK s v) := by
+    (hR : ∀ s' v, Dying s' → P (retK s' v)) (hX : ∀ s' e, P (runExit s' (some e))) :
+    P (frameRet c f k retK s v) := by
   have hp : ∀ b, Dying (playUndo s b) := fun b => by simpa [Dying, playUndo] using hd
   unfold frameRet
   cases f with
@@ -173,7 +198,7 @@ theorem frameRet_dying {P : St → Prop} (c : Cfg) (f : Fr) (k : List Fr) (retK 
     cases v <;> simp only []
     all_goals first
       | exact hR _ _ hd
-      | exact describeResp_dying _ _ _ _ _ _ hd hR
+      | exact describeResp_dying _ _ _ _ _ _ hd hR hX
   | announceK =>
     cases v <;> simp only []
     all_goals first
@@ -186,7 +211,7 @@ theorem frameRet_dying {P : St → Prop} (c : Cfg) (f : Fr) (k : List Fr) (retK 
     cases v <;> simp only []
     all_goals first
       | exact hR _ _ hd
-      | exact setupResp_dying _ _ _ _ _ _ _ hd hR
+      | exact setupResp_dying _ _ _ _ _ _ _ hd hR hX
   | playK =>
     cases v <;> simp only []
     all_goals first
@@ -213,8 +238,29 @@ theorem frameRet_dying {P : St → Prop} (c : Cfg) (f : Fr) (k : List Fr) (retK 
     cases v <;> simp only []
     all_goals first
       | exact hR _ _ hd
-      | exact setupStart_dying _ _ _ _ _ hd hR
-  | resetK n saved => exact afterReset_dying _ _ _ _ (by simpa [Dying] using hd) hR
+      | exact setupStart_dying _ _ _ _ _ _ hd hR
+  | resetK n saved => exact afterReset_dying _ _ _ _ (by simpa [Dying] using hd) hR hX
+  | swDescK ms =>
+    cases v <;> simp only []
+    all_goals first
+      | exact hX _ _
+      | (cases ms <;> simp only []
+         all_goals first
+           | exact playStart_dying _ _ _ _ hd (swEnd_dying retK hR hX)
+           | exact setupStart_dying _ _ _ _ _ _ hd (swEnd_dying retK hR hX))
+  | swSetupK rest =>
+    cases v <;> simp only []
+    all_goals first
+      | exact hX _ _
+      | (cases rest <;> simp only []
+         all_goals first
+           | exact playStart_dying _ _ _ _ hd (swEnd_dying retK hR hX)
+           | exact setupStart_dying _ _ _ _ _ _ hd (swEnd_dying retK hR hX))
+  | swPlayK =>
+    cases v <;> simp only []
+    all_goals first
+      | exact hX _ _
+      | exact hR _ _ hd
 
 
 /-! ### the same for error values only: under `Dying` every helper hands an ERROR to its continuation -/
@@ -230,7 +276,8 @@ theorem describeStart_dyingE {P : St → Prop} (s : St) (rd : Nat) (fs k : List 
   · exact hR _ _ hd
 
 theorem afterReset_dyingE {P : St → Prop} (s : St) (n : AfterReset) (k : List Fr)
-    (retK : St → Val → St) (hd : Dying s) (hR : ∀ s' e, Dying s' → P (retK s' (.err e))) :
+    (retK : St → Val → St) (hd : Dying s) (hR : ∀ s' e, Dying s' → P (retK s' (.err e)))
+    (hX : ∀ s' e, P (runExit s' (some e))) :
     P (afterReset s n k retK) := by
   have hc := clearSession_dying s hd
   unfold afterReset
@@ -242,10 +289,13 @@ theorem afterReset_dyingE {P : St → Prop} (s : St) (n : AfterReset) (k : List 
       | exact describeStart_dyingE _ _ _ _ _ (by simpa [Dying] using hc) hR
   | switchTcp a =>
     exact describeStart_dyingE _ _ _ _ _ (by simpa [Dying] using hc) hR
+  | switchAll ms =>
+    exact describeStart_dyingE _ _ _ _ _ (by simpa [Dying] using hc) (fun s' e _ => by simpa [swEnd] using hX s' e)
 
 theorem frameRet_dyingE {P : St → Prop} (c : Cfg) (f : Fr) (k : List Fr) (retK : St → Val → St)
     (s : St) (e : Err) (hd : Dying s)
-    (hR : ∀ s' e, Dying s' → P (retK s' (.err e))) : P (frameRet c f k retK s (.err e)) := by
+    (hR : ∀ s' e, Dying s' → P (retK s' (.err e))) (hX : ∀ s' e, P (runExit s' (some e))) :
+    P (frameRet c f k retK s (.err e)) := by
   have hp : ∀ b, Dying (playUndo s b) := fun b => by simpa [Dying, playUndo] using hd
   unfold frameRet
   cases f <;> simp only []
@@ -253,6 +303,7 @@ theorem frameRet_dyingE {P : St → Prop} (c : Cfg) (f : Fr) (k : List Fr) (retK
     | exact hR _ _ hd
     | exact hR _ _ (hp _)
     | exact hR _ _ (by simpa [Dying] using hd)
-    | exact afterReset_dyingE _ _ _ _ (by simpa [Dying] using hd) hR
+    | exact afterReset_dyingE _ _ _ _ (by simpa [Dying] using hd) hR hX
+    | exact hX _ _
 
 end Rtsp.ClientSm
